@@ -46,7 +46,6 @@ def processBlock (b : Block) (st : Stats) : IO Stats := do
   let mut w : World := { disk := Disk.empty, config := none, libs := b.libs }
   let mut pjHist : Array (JFile PatchesState) := #[]
   let mut sjHist : Array (JFile SState) := #[]
-  let mut keys : List Nat := []
   let mut k := 0
   let mut implTrace : Array (Op × Obs) := #[]
   let mut modelTrace : Array (Op × Obs) := #[]
@@ -67,13 +66,11 @@ def processBlock (b : Block) (st : Stats) : IO Stats := do
         if renderObs iobs != raw then
           IO.println s!"BAD {b.id} step={k} obs-roundtrip | {renderObs iobs} | {raw}"
           return { st with bads := st.bads + 1 }
-        for n in opKeys op do
-          if !keys.contains n then keys := n :: keys
         implTrace := implTrace.push (op, iobs)
         if !diff then
           let r := step env w op
           w := r.1
-          let mobs := obsOf w r.2.1 r.2.2 keys
+          let mobs := obsOf w r.2.1 r.2.2
           modelTrace := modelTrace.push (op, mobs)
           pjHist := pjHist.push w.disk.patchesJson
           sjHist := sjHist.push w.disk.stateJson
@@ -90,14 +87,19 @@ def processBlock (b : Block) (st : Stats) : IO Stats := do
         st := { st with steps := st.steps + 1 }
   if !diff then IO.println s!"OK {b.id}"
   -- monitors
-  for (prop, verdict) in Judge.judgeAll env implTrace.toList do
+  for (prop, verdict) in Judge.judgeAll env b.libs implTrace.toList do
     match verdict with
     | none => pure ()
     | some (i, why) =>
       IO.println s!"J {prop} {b.id} step={i} side=impl {why}"
       st := { st with jfails := st.jfails + 1 }
   if !diff then
-    pure ()
+    for (prop, verdict) in Judge.judgeAll env b.libs modelTrace.toList do
+      match verdict with
+      | none => pure ()
+      | some (i, why) =>
+        -- identical traces give identical verdicts; printed only to make that visible
+        if false then IO.println s!"J {prop} {b.id} step={i} side=model {why}"
   return st
 
 partial def loop (h : IO.FS.Stream) (b : Block) (st : Stats) : IO Stats := do
